@@ -188,6 +188,13 @@ def run(tier):
     for t in tpl:
         if t["name"] in ("connack-flags", "connack-1", "connack-empty"):
             early.append({"id": "y%d" % len(early), "mode": "stream", "bytes": t["bytes"], "split": 0, "at": "noconnack", "desc": "noconnack %s" % t["name"]})
+    # a client on which Handle was never called (publisher-only): malformed packets end the link all the same, whatever
+    # would have become of their content
+    for t in tpl:
+        if t["v"] == "bad":
+            early.append({"id": "y%d" % len(early), "mode": "stream", "bytes": t["bytes"], "split": 0, "noHandler": True, "desc": "no handler: %s" % t["name"]})
+            if t["bytes"][0] >> 4 == 3:
+                early.append({"id": "y%d" % len(early), "mode": "stream", "bytes": [0x30, 3, 0, 1, 0x61] + t["bytes"], "split": 1, "noHandler": True, "desc": "no handler: good QoS 0 PUBLISH, then %s" % t["name"]})
     res_e, crashed_e = run_driver(binary, early, 20)
     earlyid = {s["id"]: s for s in early}
     for r in res_e:
